@@ -530,12 +530,52 @@ def _conn_build(f):
             sink = ws
     if sink is None or sorted((a, b) for a, b, _ in sink) != [("TARGET", "s"), ("s", "TARGET")] or len({w for _, _, w in sink}) != 1:
         raise TranslateError(f"{W}: the loop joining every target to TARGET (both directions, one weight) not found: {sink}")
+    # creation of the outer dict: one empty inner dict per vertex id, one for TARGET
+    created = set()
+    for s in body:
+        if isinstance(s, ast.Assign) and len(s.targets) == 1 and _name(s.targets[0], "connectivity"):
+            v = s.value
+            lc = v.args[0] if (_call(v, "dict", 1) and isinstance(v.args[0], (ast.ListComp, ast.GeneratorExp))) else None
+            okc = False
+            if lc is not None and isinstance(lc.elt, ast.Tuple) and len(lc.elt.elts) == 2 and len(lc.generators) == 1:
+                g = lc.generators[0]
+                okc = _name(lc.elt.elts[0], g.target.id) and (_call(lc.elt.elts[1], "dict", 0) or (isinstance(lc.elt.elts[1], ast.Dict) and not lc.elt.elts[1].keys)) \
+                    and ast.unparse(g.iter) == "mesh.id_vertices" and not g.ifs
+            if isinstance(v, ast.DictComp) and len(v.generators) == 1:
+                g = v.generators[0]
+                okc = _name(v.key, g.target.id) and (_call(v.value, "dict", 0) or (isinstance(v.value, ast.Dict) and not v.value.keys)) \
+                    and ast.unparse(g.iter) == "mesh.id_vertices" and not g.ifs
+            if not okc: raise TranslateError(f"{W}: connectivity is not created as one EMPTY dict per vertex id: {ast.unparse(v)[:80]}")
+            created.add("vertices")
+        if isinstance(s, ast.Assign) and len(s.targets) == 1 and isinstance(s.targets[0], ast.Subscript) and _name(s.targets[0].value, "connectivity") \
+                and _name(s.targets[0].slice, "TARGET") and (_call(s.value, "dict", 0) or (isinstance(s.value, ast.Dict) and not s.value.keys)):
+            created.add("sink")
+    if created != {"vertices", "sink"}: raise TranslateError(f"{W}: creation of the empty inner dicts (every vertex id, TARGET) not found: {sorted(created)}")
+    # the two writes of an edge touch different inner dicts (or, for a loop, the same key): their order is immaterial -> sorted
+    def wr(mode):
+        wt, pairs = out[mode]
+        ls = []
+        if wt not in ("len e", "w e") and not wt.startswith("("): raise TranslateError(f"{W}: weight {wt}")
+        for x, y in sorted(pairs):
+            ls.append(f"    let c := cset c {x} {y} ({wt})")
+        return ls
+    conn = ["/-- body of `for e, (a, b) in enumerate(mesh.edges)` per weight mode: the writes into the dict of dicts -/",
+            "def connEdge (mode : WMode) (len : Nat → Rat) (w : Nat → Rat) (c : Conn) (ie : Nat × Nat × Nat) : Conn :=",
+            "  let e := ie.1", "  let a := ie.2.1", "  let b := ie.2.2", "  match mode with"]
+    for mname in ("one", "length", "custom"):
+        conn += [f"  | .{mname} =>"] + wr(mname) + ["    c"]
+    conn += ["/-- body of `for s in targets` -/", "def connSink (sink : Nat) (c : Conn) (s : Nat) : Conn :="]
+    for x, y, wz in sorted(sink, key=lambda t_: (t_[0] == "TARGET", t_)):
+        conn.append(f"  let c := cset c {x.replace('TARGET', 'sink')} {y.replace('TARGET', 'sink')} ({wz} : Rat)")
+    conn += ["  c", "/-- the whole construction: empty inner dicts, the loop over the (enumerated) mesh edges, the loop over the targets -/",
+             "def connBuild (mode : WMode) (len : Nat → Rat) (w : Nat → Rat) (ies : List (Nat × Nat × Nat)) (sink : Nat) (targets : List Nat) : Conn :=",
+             "  let c : Conn := fun _ => []", "  let c := ies.foldl (connEdge mode len w) c", "  let c := targets.foldl (connSink sink) c", "  c", ""]
     lines = ["/-! ### the `connectivity` dict of shortest_path_to_vertex_set: weight written for mesh edge number `e` in both directions,",
              "and the weight of the fictitious edges target ↔ TARGET -/",
              "def connWeight (mode : WMode) (len : Nat → Rat) (w : Nat → Rat) (e : Nat) : Rat :=",
              "  match mode with", f"  | .one => {out['one'][0]}", f"  | .length => {out['length'][0]}", f"  | .custom => {out['custom'][0]}",
              f"def sinkWeight : Rat := ({sink[0][2]} : Rat)", ""]
-    return lines
+    return lines + conn
 
 
 def _shortcut(f):
@@ -675,6 +715,7 @@ def _check_weight(tree):
 
 HEADER = """import Mouette.Model.Dijkstra
 import Mouette.Model.PathMesh
+import Mouette.Model.ConnDict
 /-
 Imperative translation of the glue of mouette/processing/paths.py (everything around the two Dijkstra loops).
 Bridges: Mouette/Props/C09Source.lean.
@@ -689,6 +730,13 @@ deriving DecidableEq, Repr
 
 """
 
+
+
+def _stub(name, ns, sites):
+    """a translation site failed: do not leave the file of an EARLIER tree on disk; the stub has no definitions, so every bridge
+    that needs them fails to build and the build log talks about THIS tree"""
+    bad = "; ".join(f"{s['site']}: {str(s.get('detail'))[:160]}" for s in sites if not s["ok"]).replace("-/", "- /")
+    T.write_generated(name, f"/- TRANSLATION FAILED on the current source tree, no definitions emitted.\n{bad}\n-/\nnamespace {ns}\nend {ns}\n")
 
 def translate():
     sites, out = [], {}
@@ -716,4 +764,6 @@ def translate():
         body = []
         for k in ("build", "bsp", "wsp", "tn", "bset", "conn", "short", "border", "cw"): body += out[k]
         T.write_generated("C09Glue", "\n".join(body) + "\nend Mouette.Generated.C09G\n", HEADER)
+    else:
+        _stub("C09Glue", "Mouette.Generated.C09G", sites)
     return sites
